@@ -30,6 +30,21 @@ Oracle (plain Python, pixel by pixel; weights registered in the image by the har
     Literal clause of the statement (configurations without sigma clip, T not empty): sum, sum_err, sum_aper_area equal
     aperture_photometry / area_overlap called with the same (method, subpixels), the same error map and the total mask
     (mask | non-finite data), minus local_bkg x area for the sum.
+
+Access-order product (units of kind 'order'): the statement gives every value as a function of (data, aperture, options)
+    alone, so an ApertureStats object on which other values were read before must return what a fresh object returns.
+    Operations: read of every public attribute (ApertureStats.properties -- the *cutout attributes, moments, bbox, gini,
+    sky centroids ... included -- plus id, ids), to_table() (default columns), to_table(every accepted column in sorted /
+    in reverse-sorted order), child = parent[index].  Enumerated completely, each history on a fresh object:
+      pairs     every ordered pair (o1, o2), diagonal included: o2 after o1 == o2 alone; the object o1 returned unchanged;
+      chains    every operation o1 first, then every attribute in sorted (resp. reverse-sorted) order, then the big table in
+                that order, then the default table: every step == alone, every returned object still == alone at the end;
+      children  every (index, o1, o2): o1 on the parent, o2 on parent[index] == o2 on the child of an untouched parent; the
+                parent afterwards == alone;
+    over object configurations form {4-position aperture, scalar aperture, sky aperture} x sum_method x error {given, none}
+    x sigma clip {none, 1.5s/5it} (x data unit {none, Jy} in the thorough tier) on the non-finite data variant with the
+    one-pixel mask and a per-position local background (the sub-product of the quick tier is listed by describe()).
+    Comparison bit for bit (NaN-aware; masked arrays by mask and unmasked values); children 1e-12 relative.
 """
 import math
 
@@ -53,7 +68,14 @@ RULE = ('full Cartesian product aperture spec x data variant x mask x error cond
         'addition compared literally with aperture_photometry / area_overlap for the same (method, subpixels); non-trivial when the centre-method pixel set S or the sum-method set T of that position is not empty '
         '(measured from the registered weights); counters sum_err:* count the (configuration, position) cases whose bounding '
         'box really contains a non-finite error value at an excluded pixel / at a pixel of T; cases are distinct by '
-        'construction (distinct product indices)')
+        'construction (distinct product indices).  ACCESS-ORDER product (unit kind "order"): for each object configuration '
+        '(form x sum_method x error x sigma clip [x unit], listed in coverage.order) every ordered pair of operations from the '
+        'alphabet {read of each public attribute in ApertureStats.properties + id + ids, to_table()} (thorough: + the two '
+        'all-column tables), the diagonal included, is executed on a fresh object and the second result compared with the same '
+        'operation executed alone on a fresh object (and the first returned object re-compared afterwards); every chain '
+        '"o1, then all attributes sorted / reverse-sorted, then the all-column table in that order, then the default table" '
+        'for every first operation o1; every (index, o1, o2) with o1 read on the parent and o2 on parent[index]; one '
+        'evaluation = one history; a pair is non-trivial when o1 != o2 (a re-read is trivial), chains and children always')
 ASSUMPTIONS = ['aperture weights / bbox from to_mask() are correct (C01); their registration in the image is done by the harness',
                'the reference weights of sum_method exact / center are to_mask(method) without a subpixels argument, those of '
                'subpixel are to_mask("subpixel", subpixels=n) (n = 1 is registered on its own, not copied from center)',
@@ -67,7 +89,18 @@ ASSUMPTIONS = ['aperture weights / bbox from to_mask() are correct (C01); their 
                'depend on how the set was chosen); a non-finite error at a pixel whose weight is rounding noise (0 < |w| < 1e-12) '
                'is accepted either way',
                'shape values follow the documented SourceExtractor regularisation of thin covariances; decisions within '
-               '1e-9 of its thresholds are accepted either way']
+               '1e-9 of its thresholds are accepted either way',
+               'access-order product: the "alone" value of an operation (one fresh object, that operation only) is the reference; '
+               'that the alone values of the listed properties are the direct statistics is what the value product checks (the '
+               'other public attributes -- cutouts, moments, bbox, gini, sky centroids -- are only required to be independent of '
+               'the history); an attribute that raises when read alone, and a column to_table() rejects alone (cutout lists of '
+               'different shapes), leave the alphabet of that configuration (counted); results are compared bit for bit (same '
+               'code path on the same inputs), masked arrays by mask and unmasked values; values of a child parent[index] within '
+               '1e-12 relative (the parent computed them on a longer vector); the children of one (index, o1) are taken from '
+               'one parent one after the other (a child that writes into its parent is reported under the later child)',
+               'access-order product: object configurations use the non-finite data variant, the one-pixel mask, a per-position '
+               'local background, subpixels=5, the 7x8 image, aperture circle r=1.5 (thorough: four aperture specs) at four '
+               'positions (interior / trimmed box / every pixel masked / no overlap)']
 
 SUM_METHODS = ['exact', 'center', 'subpixel']
 SUBPIXELS = [5, 1, 2]           # the default first (the axis of the earlier, three-valued version of this check), then 1, 2
@@ -652,12 +685,17 @@ def plan(tier, seed):
             for variant, mask in ([('nonfinite', 'none')] if tier == 'quick' else
                                   [(v, m) for v in VARIANTS for m in ('none', 'pixel')]):
                 units.append({'kind': 'scalar', 'shape': si, 'aper': ai, 'variant': variant, 'mask': mask})
-    return units
+    # access-order product: one unit per (aperture, form, object configuration)
+    return units + order_units(tier)
 
 
 def run_unit(unit, tier, seed):
     acc = Acc()
     shape = image_shapes(tier)[unit['shape']]
+    if unit['kind'] == 'order':
+        octx = OrderCtx(shape, order_apers(tier)[unit['aper']], unit['form'], seed, unit['cfg'])
+        run_order(acc, octx, tier, order_parts(tier, unit['form'], octx.ocfg))
+        return acc
     if unit['kind'] == 'scalar':
         spec = aper_specs(tier)[unit['aper']]
         npos = len(positions(shape, seed))
@@ -691,8 +729,421 @@ def check_table(acc, ctx, cfg, st, got):
             acc.violation('to_table', p, cfg_case(ctx, cfg, 0, 'to_table'), col.tolist(), v.tolist())
 
 
+# ------------------------------------------------------------------------------------------------------------------
+# Access-order product: the values of one ApertureStats object do not depend on the order in which they are asked for
+# ------------------------------------------------------------------------------------------------------------------
+# The statement gives every value as a function of (data, aperture, options) alone; an object on which other values have
+# been read before (a cached, lazily evaluated object) must therefore return the same value as a fresh object.  Every
+# history below is executed on a FRESH object and every result is compared with the result of the same operation executed
+# ALONE on a fresh object of the same configuration ("alone" values; those of the listed properties are what the value
+# product above compares with the direct computation).
+ORDER_POS = [0, 3, 7, 10]        # indices into positions(): interior generic / box trimmed by the left and top edges /
+#                                  image corner (its only pixel is non-finite in the data used: "all masked") / no overlap
+ORDER_SCALAR_POS_QUICK = [3]     # scalar-aperture form: the trimmed position (thorough: every position of ORDER_POS)
+ORDER_ERRORS = ['finite', 'none']
+ORDER_CLIPS = [None, [1.5, 5]]
+ORDER_UNITS = ['none', 'Jy']
+ORDER_INDEXES = [0, [3, 0], [1, 3]]      # child = parent[index]: an int (scalar child), a reordering list (fancy index) and
+#                                          slice(1, 3) (written [1, 3]; thorough tier only)
+ORDER_FIXED = {'variant': 'nonfinite', 'mask': 'pixel', 'local_bkg': 'per', 'subpixels': 5}
+BIG_TABLES = ['to_table(sorted)', 'to_table(reversed)']     # every accepted column, in sorted / reverse-sorted order
+TABLE_OPS = ['to_table()'] + BIG_TABLES
+# child results are recomputed on 1-2 positions where the parent computed them on 4: the same scalar formulae, but numpy's
+# vectorised kernels are not guaranteed to round identically for different vector lengths -> 1e-12 relative (values are
+# O(1..100); an order defect changes a value by O(its size)).  Pair / chain histories compare bit for bit (same code path
+# on the same inputs in both runs).
+CHILD_RTOL, CHILD_ATOL = 1e-12, 1e-13
+
+
+def order_apers(tier):
+    return [['circle', 1.5]] + ([['circle', 0.3], ['eann', 1.0, 2.8, 1.4, 2.0], ['rect', 3.0, 2.0, 0.3]]
+                                if tier == 'thorough' else [])
+
+
+def public_properties():
+    """ApertureStats.properties (every public lazily evaluated attribute, sorted) as the tree under test defines it."""
+    from photutils.aperture import ApertureStats, CircularAperture
+    return list(ApertureStats(np.zeros((3, 3)), CircularAperture((1.0, 1.0), r=1.0)).properties)
+
+
+def order_ops():
+    return public_properties() + ['id', 'ids'] + TABLE_OPS
+
+
+def order_indexes(tier):
+    return ORDER_INDEXES if tier == 'thorough' else ORDER_INDEXES[:2]
+
+
+def order_cfgs(tier, form):
+    """Object configurations of the order product for one form (multi / scalar:k / sky), first aperture spec.
+    thorough: the full product unit x error x clip x sum_method for the multi and scalar forms, without units for sky.
+    quick (no units): multi: {exact, center} x error x clip; scalar: {exact, center} x error given x clip;
+    sky: exact x error given x the sigma clip (chains only, see order_parts)."""
+    if tier == 'thorough':
+        return [{'sum_method': m, 'error': e, 'clip': c, 'unit': un}
+                for un in (ORDER_UNITS if form != 'sky' else ['none']) for e in ORDER_ERRORS for c in ORDER_CLIPS
+                for m in SUM_METHODS]
+    methods = ['exact'] if form == 'sky' else ['exact', 'center']
+    errors = ORDER_ERRORS if form == 'multi' else ['finite']
+    clips = [ORDER_CLIPS[1]] if form == 'sky' else ORDER_CLIPS
+    return [{'sum_method': m, 'error': e, 'clip': c, 'unit': 'none'} for e in errors for c in clips for m in methods]
+
+
+class OrderCtx:
+    """Builds fresh ApertureStats objects of one configuration of the order product."""
+
+    def __init__(self, shape, spec, form, seed, ocfg):
+        self.shape, self.spec, self.form, self.seed, self.ocfg = tuple(shape), spec, form, seed, dict(ocfg)
+        allpos = positions(self.shape, seed)
+        if form.startswith('scalar:'):
+            self.pos_idx = [int(form.split(':')[1])]
+            pos = allpos[self.pos_idx[0]]
+        else:
+            self.pos_idx = list(ORDER_POS)
+            pos = [allpos[k] for k in ORDER_POS]
+        self.n = len(self.pos_idx)
+        self.scalar = form.startswith('scalar:')
+        aper = R.make_aperture(spec, pos)
+        self.wcs = None
+        if form == 'sky':
+            self.wcs = R.tan_wcs()
+            aper = aper.to_sky(self.wcs)
+        self.aper = aper
+        img = images(self.shape, seed)
+        self.data = img[ORDER_FIXED['variant']]
+        self.err = img['err'] if ocfg['error'] == 'finite' else None
+        self.mask = make_mask(ORDER_FIXED['mask'], self.shape)
+        self.lb = (np.array([0.05 + 0.1 * k for k in self.pos_idx]) if not self.scalar else 0.05 + 0.1 * self.pos_idx[0])
+        self.inputs0 = (self.data.copy(), None if self.err is None else self.err.copy(), self.mask.copy(),
+                        np.array(self.lb, dtype=float).copy())
+
+    def fresh(self):
+        from astropy.stats import SigmaClip
+        import astropy.units as u
+        from photutils.aperture import ApertureStats
+        c = self.ocfg
+        clip = None if c['clip'] is None else SigmaClip(sigma=c['clip'][0], maxiters=c['clip'][1])
+        data, err, lb = self.data, self.err, self.lb
+        if c['unit'] != 'none':
+            un = u.Unit(c['unit'])
+            data, lb = data * un, lb * un
+            err = None if err is None else err * un
+        return ApertureStats(data, self.aper, error=err, mask=self.mask, wcs=self.wcs, sigma_clip=clip,
+                             sum_method=c['sum_method'], subpixels=ORDER_FIXED['subpixels'], local_bkg=lb)
+
+    def inputs_changed(self):
+        d0, e0, m0, l0 = self.inputs0
+        bad = []
+        if not np.array_equal(d0, self.data, equal_nan=True):
+            bad.append('data')
+        if e0 is not None and not np.array_equal(e0, self.err, equal_nan=True):
+            bad.append('error')
+        if not np.array_equal(m0, self.mask):
+            bad.append('mask')
+        if not np.array_equal(l0, np.array(self.lb, dtype=float)):
+            bad.append('local_bkg')
+        return bad
+
+
+class OpRaised:
+    """Result of an operation that raised (compared by exception type)."""
+
+    def __init__(self, exc):
+        self.name = type(exc).__name__
+        self.text = repr(exc)[:200]
+
+    def __repr__(self):
+        return f'<raised {self.text}>'
+
+
+def table_plain(tbl):
+    """A table as {column name: plain value} (SkyCoord / Quantity kept, other columns as arrays)."""
+    import astropy.units as u
+    out = {'__colnames__': list(tbl.colnames)}
+    for name in tbl.colnames:
+        col = tbl[name]
+        if hasattr(col, 'spherical'):
+            out[name] = col
+        elif isinstance(col, u.Quantity):
+            out[name] = u.Quantity(col)
+        else:
+            out[name] = np.ma.asanyarray(col) if hasattr(col, 'mask') else np.asarray(col)
+    return out
+
+
+def apply_op(st, op, tcols):
+    """Execute one operation of the alphabet on object st; exceptions of photutils are returned, not raised."""
+    try:
+        if op == 'to_table()':
+            return table_plain(st.to_table())
+        if op == 'to_table(sorted)':
+            return table_plain(st.to_table(columns=list(tcols)))
+        if op == 'to_table(reversed)':
+            return table_plain(st.to_table(columns=list(tcols)[::-1]))
+        return getattr(st, op)
+    except Exception as exc:  # noqa: BLE001
+        return OpRaised(exc)
+
+
+def take_child(st, index):
+    try:
+        return st[slice(*index) if (isinstance(index, list) and index == [1, 3]) else index]
+    except Exception as exc:  # noqa: BLE001
+        return OpRaised(exc)
+
+
+def op_diff(got, want, rtol=0.0, atol=0.0):
+    from ..snapshot import diff
+    if isinstance(got, OpRaised) or isinstance(want, OpRaised):
+        if isinstance(got, OpRaised) and isinstance(want, OpRaised):
+            return None if got.name == want.name else f'raised {got.name} instead of {want.name}'
+        return f'{got!r} vs {want!r}'[:300]
+    return diff(got, want, rtol=rtol, atol=atol)
+
+
+def blame(op, d):
+    """The attribute a difference belongs to: for a table operation the first differing column (a table is a sequence of
+    attribute reads), so that one defect seen through an attribute and through a table has one key."""
+    if op in TABLE_OPS:
+        import re
+        m = re.match(r"\['([^']+)'\]", d)
+        if m and m.group(1) != '__colnames__':
+            return m.group(1)
+    return op
+
+
+def order_case(octx, history, what):
+    return {'kind': 'order', 'shape': list(octx.shape), 'aper': octx.spec, 'form': octx.form, **octx.ocfg,
+            'fixed': ORDER_FIXED, 'positions': octx.pos_idx, 'history': history, 'check': what, 'prop': 'order'}
+
+
+def order_reference(acc, octx, ops_all):
+    """'Alone' values: every operation executed alone on a fresh object; the columns to_table accepts one by one
+    (cutout lists of different shapes are not table columns: outside the statement); operations that raise alone are
+    outside the statement of C16 for this configuration and leave the alphabet (counted)."""
+    props = [o for o in ops_all if o not in TABLE_OPS]
+    tcols = []
+    for p in props:
+        st = octx.fresh()
+        try:
+            st.to_table(columns=[p])
+            tcols.append(p)
+        except Exception:  # noqa: BLE001
+            acc.counters[f'order:not-a-table-column:{p}'] += 1
+    alone, ops = {}, []
+    for op in ops_all:
+        r = apply_op(octx.fresh(), op, tcols)
+        if isinstance(r, OpRaised):
+            acc.skip(f'order: {op} raises {r.name} when read alone on a fresh object (not an order effect)')
+            continue
+        alone[op] = r
+        ops.append(op)
+    return ops, tcols, alone
+
+
+def run_history(octx, history, tcols):
+    """Execute a history (list of steps) on a fresh object.  Steps: an operation name (executed on the current object),
+    or ['child', index] (the current object becomes parent[index]; the parent is kept for later ['parent'] steps), or
+    ['parent'] (back to the parent).  Returns the list of (step, object-kind, result)."""
+    st = parent = octx.fresh()
+    out = []
+    for step in history:
+        if isinstance(step, list) and step[0] == 'child':
+            st = take_child(parent, step[1])
+            out.append((step, 'child', st if isinstance(st, OpRaised) else None))
+            if isinstance(st, OpRaised):
+                break
+        elif isinstance(step, list) and step[0] == 'parent':
+            st = parent
+            out.append((step, 'parent', None))
+        else:
+            out.append((step, 'child' if st is not parent else 'parent', apply_op(st, step, tcols)))
+    return out
+
+
+def check_pairs(acc, octx, ops, tcols, alone, only=None):
+    """H1: every ordered pair (o1, o2) of operations, the diagonal included, each on a fresh object: o2 after o1 gives the
+    alone value of o2, and the object returned by o1 still has the alone value of o1 afterwards."""
+    for o1 in ops:
+        for o2 in ops:
+            if only and only != [o1, o2]:
+                continue
+            st = octx.fresh()
+            r1 = apply_op(st, o1, tcols)
+            d1 = op_diff(r1, alone[o1])
+            r2 = apply_op(st, o2, tcols)
+            acc.case(nontrivial=o1 != o2, sample=(order_case(octx, [o1, o2], 'pair') if acc.evaluations % 20011 == 7 else None))
+            acc.outcome(f'order|{type(r2).__name__}')
+            if d1:      # the FIRST read on a fresh object differs from the alone value: not a function of the inputs at all
+                acc.violation('access-order', f'{o1}:first-read-not-reproducible', order_case(octx, [o1, o2], 'pair'), d1, 'alone value')
+                continue
+            d = op_diff(r2, alone[o2])
+            if d:
+                acc.violation('access-order', f'{blame(o2, d)}:after:{o1}',
+                              order_case(octx, [o1, o2], 'pair'), d,
+                              f'the value of {o2} read alone on a fresh object', f'{o2} read after {o1} on one object')
+            d = op_diff(r1, alone[o1])
+            if d:
+                acc.violation('access-order', f'{blame(o1, d)}:returned-value-changed-by:{o2}', order_case(octx, [o1, o2], 'pair'), d,
+                              f'the value {o1} returned before {o2} was read', 'the object handed out earlier was altered')
+    bad = octx.inputs_changed()
+    if bad:
+        acc.violation('input-modified', 'order:' + ','.join(bad), order_case(octx, [], 'pair'))
+
+
+def chain_of(o1, direction, reads):
+    body = list(reads) if direction == 'sorted' else list(reads)[::-1]
+    return [o1] + body + [f'to_table({direction})', 'to_table()']
+
+
+def check_chains(acc, octx, firsts, reads, tcols, alone, only=None):
+    """H2: for every first operation o1 (any operation, the three tables included) and both directions: o1, then every
+    attribute in sorted / reverse-sorted order, then the table of every accepted column in that order, then the default
+    table -- all on the same object (depth = number of attributes + 3); every result equals its alone value when it is
+    produced AND (the object returned) still at the end of the chain."""
+    for o1 in firsts:
+        for direction in ('sorted', 'reversed'):
+            if only and only != [o1, direction]:
+                continue
+            chain = [op for op in chain_of(o1, direction, reads) if op in alone]
+            st = octx.fresh()
+            held = []
+            acc.case(nontrivial=True, sample=(order_case(octx, [o1, direction], 'chain') if acc.evaluations % 20011 == 7 else None))
+            for i, op in enumerate(chain):
+                r = apply_op(st, op, tcols)
+                d = op_diff(r, alone[op])
+                if d:       # the first divergent step names the defect; what follows on this object is its consequence
+                    acc.violation('access-order', f'{blame(op, d)}:in-chain', order_case(octx, [o1, direction], 'chain'), d,
+                                  f'the value of {op} read alone on a fresh object', f'step {i} of the chain {o1}, then all {direction}')
+                    break
+                held.append((op, r))
+            else:
+                for op, r in held:      # every step was right when produced: the objects handed out must still be right
+                    d = op_diff(r, alone[op])
+                    if d:
+                        acc.violation('access-order', f'{blame(op, d)}:returned-value-changed-in-chain',
+                                      order_case(octx, [o1, direction], 'chain'), d, 'the value returned earlier in the chain')
+                        break
+    bad = octx.inputs_changed()
+    if bad:
+        acc.violation('input-modified', 'order:' + ','.join(bad), order_case(octx, [], 'chain'))
+
+
+def check_children(acc, octx, indexes, ops, tcols, alone, only=None):
+    """H3 (non-scalar objects): for every index and every ordered pair (o1, o2): o1 on the parent, child = parent[index],
+    o2 on the child, equals o2 on the child of a parent on which nothing was read (one parent per (index, o1); its
+    children, one per o2, are taken from it one after the other); and the parent, read after all that, still gives its
+    alone values."""
+    for index in indexes:
+        if only and only[0] != index:
+            continue
+        ref = {}
+        for o2 in ops:
+            ch = take_child(octx.fresh(), index)
+            if isinstance(ch, OpRaised):
+                acc.skip(f'order: parent[{index}] raises {ch.name} on a fresh object')
+                ref = None
+                break
+            ref[o2] = apply_op(ch, o2, tcols)
+        if ref is None:
+            continue
+        for o1 in ops:
+            if only and only[1] != o1:
+                continue
+            parent = octx.fresh()
+            apply_op(parent, o1, tcols)
+            for o2 in ops:
+                ch = take_child(parent, index)
+                r2 = ch if isinstance(ch, OpRaised) else apply_op(ch, o2, tcols)
+                acc.case(nontrivial=True, sample=(order_case(octx, [index, o1, o2], 'child') if acc.evaluations % 20011 == 7 else None))
+                acc.outcome(f'order|child|{type(r2).__name__}')
+                d = op_diff(r2, ref[o2], CHILD_RTOL, CHILD_ATOL)
+                if d:
+                    # o1 is not part of the site: earlier children of the same parent belong to the history as well
+                    acc.violation('access-order', f'{blame(o2, d)}:on-child-of-read-parent', order_case(octx, [index, o1, o2], 'child'), d,
+                                  f'{o2} on parent[{index}] of a parent on which nothing was read',
+                                  f'{o1} read on the parent, then parent[{index}].{o2} (children taken one after the other)')
+            # the parent after all its children were read
+            for o2 in ops:
+                d = op_diff(apply_op(parent, o2, tcols), alone[o2])
+                if d:
+                    acc.violation('access-order', f'{blame(o2, d)}:on-parent-after-children', order_case(octx, [index, o1, None], 'child'), d,
+                                  f'the value of {o2} read alone on a fresh object')
+                    break
+    bad = octx.inputs_changed()
+    if bad:
+        acc.violation('input-modified', 'order:' + ','.join(bad), order_case(octx, [], 'child'))
+
+
+def run_order(acc, octx, tier, parts, only=None):
+    """tier selects the alphabets (see describe()); a replay (only=...) runs one row with the full alphabets."""
+    ops, tcols, alone = order_reference(acc, octx, order_ops())
+    reads = [o for o in ops if o not in TABLE_OPS]
+    small = [o for o in ops if o not in BIG_TABLES]          # attributes + the default table
+    acc.counters['order:operations-in-alphabet'] = max(acc.counters['order:operations-in-alphabet'], len(ops))
+    acc.counters['order:table-columns'] = max(acc.counters['order:table-columns'], len(tcols))
+    if 'pair' in parts:
+        check_pairs(acc, octx, ops if (tier == 'thorough' or only) else small, tcols, alone, only)
+    if 'chain' in parts:
+        check_chains(acc, octx, ops, reads, tcols, alone, only)
+    if 'child' in parts and not octx.scalar:
+        check_children(acc, octx, order_indexes('thorough' if only else tier), small, tcols, alone, only)
+
+
+def order_parts(tier, form, ocfg):
+    """Which history families run for a configuration.  thorough: all of them (children: non-scalar forms).  quick: pairs
+    and chains for the multi and scalar forms, children for the multi form with an error map, chains only for the sky form
+    (a fresh sky object costs a to_pixel conversion: its pair product is left to the thorough tier)."""
+    if form.startswith('scalar:'):
+        return ['pair', 'chain']
+    if tier == 'thorough' or (form == 'multi' and ocfg['error'] == 'finite'):
+        return ['pair', 'chain', 'child']
+    return ['chain'] if form == 'sky' else ['pair', 'chain']
+
+
+def order_describe(tier, seed):
+    try:
+        props = public_properties()
+    except Exception as exc:  # noqa: BLE001
+        props = [f'<ApertureStats.properties not available: {type(exc).__name__}>']
+    reads = props + ['id', 'ids']
+    pair_ops = reads + (TABLE_OPS if tier == 'thorough' else ['to_table()'])
+    return {'attributes': reads, 'pair_alphabet': f'{len(pair_ops)} operations: the attributes + '
+            + ('to_table(), to_table(sorted), to_table(reversed)' if tier == 'thorough' else 'to_table()'),
+            'pairs_per_configuration': len(pair_ops) ** 2,
+            'chains_per_configuration': 2 * (len(reads) + 3), 'chain_depth': len(reads) + 3,
+            'child_indexes': [('slice(1, 3)' if i == [1, 3] else i) for i in order_indexes(tier)],
+            'children_per_configuration': len(order_indexes(tier)) * (len(reads) + 1) ** 2,
+            'apertures': order_apers(tier), 'positions': ORDER_POS, 'fixed': ORDER_FIXED, 'image': list(image_shapes(tier)[0]),
+            'configurations': [{'aper': order_apers(tier)[x['aper']], 'form': x['form'], **x['cfg'],
+                                'families': order_parts(tier, x['form'], x['cfg'])} for x in order_units(tier)],
+            'units': len(order_units(tier))}
+
+
+def order_units(tier):
+    """Work units of the order product (first image only: the image size plays no part in what an object caches):
+    first aperture spec x every form x order_cfgs(tier, form); thorough in addition: the other aperture specs (no pixel
+    centre inside / annulus with zero-weight hole / rotated rectangle) x multi form x error x clip x sum_method, no units."""
+    out = [{'kind': 'order', 'shape': 0, 'aper': 0, 'form': form, 'cfg': cfg}
+           for form in order_forms(tier) for cfg in order_cfgs(tier, form)]
+    for ai in range(1, len(order_apers(tier))):
+        out += [{'kind': 'order', 'shape': 0, 'aper': ai, 'form': 'multi', 'cfg': cfg}
+                for cfg in order_cfgs(tier, 'multi') if cfg['unit'] == 'none']
+    return out
+
+
+def order_forms(tier):
+    sc = ORDER_SCALAR_POS_QUICK if tier == 'quick' else ORDER_POS
+    return ['multi'] + [f'scalar:{k}' for k in sc] + ['sky']
+
+
 def replay(case, seed):
     acc = Acc()
+    if case.get('kind') == 'order':
+        octx = OrderCtx(tuple(case['shape']), case['aper'], case['form'], seed,
+                        {k: case[k] for k in ('sum_method', 'error', 'clip', 'unit')})
+        run_order(acc, octx, 'thorough', [case['check']], only=case['history'])
+        return acc
     cfg = {k: case[k] for k in ('variant', 'mask', 'error', 'clip', 'sum_method', 'local_bkg')}
     cfg['subpixels'] = case.get('subpixels', 5)  # replay files written before the subpixels axis existed: the default
     if isinstance(cfg['error'], bool):          # replay files written before the error axis was enlarged
@@ -718,6 +1169,7 @@ def describe(tier, seed):
                          'local_bkg': LBKG, 'properties': PROPS,
                          'properties_read': 'all for subpixels=5 and for error=finite; sum, sum_err, sum_aper_area otherwise',
                          'literal_clause': 'every configuration without sigma clip, positions with T not empty'},
+            'order': order_describe(tier, seed),
             'bound': {'units': len(plan(tier, seed)),
                       'configs_per_unit': {f'{v}/{m}': len(all_cfgs(v, m)) for v in VARIANTS for m in MASKS},
                       'error_conditions_not_repeated': 'nf-masked with mask none, nf-data with finite data, nf-clipped without '
